@@ -121,7 +121,11 @@ theorem resolveA_sem : ∀ (y : Ys) (s s' : St),
     simp [resolveA, ysR, gatherA_sem l s s' hm hm' hr (by simpa [SafeY, SafeL, Ys.excOnly, Ys.noRaiseB] using hx) hn]
   | .sub _, _, _, _, _, hr, _, _ => by simp [Ys.plainY] at hr
   | .pval _, _, _, _, _, hr, _, _ => by simp [Ys.plainY] at hr
-  | .gco _, _, _, _, _, hr, _, _ => by simp [Ys.plainY] at hr
+  | .gco y, s, s', hm, hm', hr, hx, hn => by
+    simp only [Ys.plainY] at hr
+    simp only [resolveA] at hn
+    simp only [resolveA, ysR]
+    exact resolveA_sem y s s' hm hm' hr (by simpa [SafeY, Ys.excOnly, Ys.noRaiseB] using hx) hn
   | .ofut b _, _, _, _, _, _, _, _ => by cases b <;> simp [resolveA, ysR]
 theorem gatherA_sem : ∀ (l : YsL) (s s' : St),
     s.mode = true → s'.mode = false → l.plainY = true → SafeL l →
